@@ -208,6 +208,7 @@ type snap struct {
 	jlen int
 	ref  rstate
 	obs  *obs
+	nops int // len(world.ops) when taken
 }
 
 type world struct {
@@ -220,6 +221,7 @@ type world struct {
 	committed     rstate
 	committedRoot string
 	snaps         []snap
+	ops           []opDef // successful account operations since the last Commit / revert(0)
 
 	// the last step (judged by check)
 	sig, detail string
@@ -230,6 +232,7 @@ type world struct {
 		expect     *obs // exact observation demanded after a revert (nil: none recorded)
 		reverted   string
 		revKinds   []string
+		spanOps    []opDef // operations undone by a revert to a snapshot
 		refsBefore map[string]int
 	}
 	cur *obs // observation made by check (nil until then)
@@ -530,11 +533,11 @@ func (w *world) do(op opDef) {
 	w.sig, w.detail, w.nt, w.out, w.cur = "", "", "", "", nil
 	pre := w.adb.JournalLen()
 	st := &w.step
-	st.op, st.done, st.expect, st.reverted, st.revKinds = op, true, nil, "", nil
+	st.op, st.done, st.expect, st.reverted, st.revKinds, st.spanOps = op, true, nil, "", nil, nil
 	st.refsBefore = codeRefs(w.ref)
 	switch op.kind {
 	case kSnapshot:
-		w.snaps = append(w.snaps, snap{jlen: pre, ref: w.ref.clone(), obs: w.observe()})
+		w.snaps = append(w.snaps, snap{jlen: pre, ref: w.ref.clone(), obs: w.observe(), nops: len(w.ops)})
 		w.out = "snapshot"
 	case kLoad:
 		// what a processor does when it only reads an account (e.g. a transaction that fails
@@ -552,6 +555,8 @@ func (w *world) do(op opDef) {
 		}
 		w.ref = s.ref.clone()
 		w.snaps = w.snaps[:idx+1]
+		st.spanOps = append([]opDef{}, w.ops[s.nops:]...)
+		w.ops = w.ops[:s.nops]
 		st.expect = s.obs
 		st.reverted = "snapshot"
 		if jl := w.adb.JournalLen(); jl != s.jlen {
@@ -564,6 +569,8 @@ func (w *world) do(op opDef) {
 		}
 		w.ref = w.committed.clone()
 		w.snaps = nil
+		st.spanOps = w.ops
+		w.ops = nil
 		st.reverted = "zero"
 	case kCommit:
 		root, err := w.adb.Commit()
@@ -573,6 +580,7 @@ func (w *world) do(op opDef) {
 		w.committed = w.ref.clone()
 		w.committedRoot = hx(root)
 		w.snaps = nil
+		w.ops = nil
 		w.out = "commit"
 	default:
 		var before *obs
@@ -590,11 +598,13 @@ func (w *world) do(op opDef) {
 			}
 			if pre == 0 {
 				w.snaps = nil
+				w.ops = nil
 			}
 			st.expect = before // nil for the other operations: judged against the reference only
 			st.reverted = "failed-op"
 		} else {
 			w.refApply(op)
+			w.ops = append(w.ops, op)
 			w.out = "ok:" + op.name[:strings.Index(op.name, "(")]
 		}
 	}
@@ -649,7 +659,12 @@ func (w *world) checkC06(op opDef, expect *obs, reverted string, revKinds []stri
 	}
 	d = uniq(append(d, dr...))
 	if len(d) > 0 {
-		w.fail("revert-"+reverted+"-inexact:"+strings.Join(d, "+"),
+		qual := ""
+		if removedAndRecreatedWithStorage(w.step.spanOps) {
+			// narrowest class of the defect found on the unchanged tree (see file header)
+			qual = ":account-removed-and-recreated-with-storage-in-reverted-span"
+		}
+		w.fail("revert-"+reverted+"-inexact:"+strings.Join(d, "+")+qual,
 			fmt.Sprintf("%s (reverted journal span: %v; reference now %s)", strings.Join(append(l, lr...), "; "), revKinds, w.ref.String()))
 	}
 	w.out = "revert-" + reverted + ":" + fmt.Sprint(len(revKinds))
@@ -661,6 +676,21 @@ func (w *world) checkC06(op opDef, expect *obs, reverted string, revKinds []stri
 	} else {
 		w.out += ":" + op.name
 	}
+}
+
+// removedAndRecreatedWithStorage: some account was removed and afterwards written a storage
+// value (which re-creates it with a new data trie) within the given operations.
+func removedAndRecreatedWithStorage(ops []opDef) bool {
+	removed := map[string]bool{}
+	for _, o := range ops {
+		if o.kind == kRemove {
+			removed[o.who] = true
+		}
+		if o.kind == kStore && removed[o.who] {
+			return true
+		}
+	}
+	return false
 }
 
 // C07: for every possible code hash: entry exists in the main trie iff >=1 account refers to
